@@ -184,7 +184,11 @@ union Single = Type
 scalar include
 directive @Type(if: Boolean) on FIELD | QUERY
 directive @skipX(if: Boolean!) repeatable on FIELD | FRAGMENT_SPREAD | INLINE_FRAGMENT
-type Query { node: Node  Node: Node  query: Query  type(type: Type2, Type: Color, Int: Int = 1): Type  fragment: Int  on: Int  u: U  single: Single  nodes(first: Int): [NodeXY!]  inc: include }
+type Label { text: String }
+type Owner { text: Int  id: ID }
+type Dog { name: Label  nick: String }
+type Do { gname: Owner  g: Int }
+type Query { node: Node  Node: Node  query: Query  type(type: Type2, Type: Color, Int: Int = 1): Type  fragment: Int  on: Int  u: U  single: Single  nodes(first: Int): [NodeXY!]  inc: include  dog: Dog  do: Do }
 ";
 
 pub fn pool() -> Vec<(&'static str, String)> {
